@@ -3,6 +3,49 @@ sys.path.insert(0, os.path.dirname(os.path.abspath(__file__)))
 import engine
 
 
+class WithSub:
+    """the main family of a property plus tagged cases of further model families (engine.evaluate dispatches on case['sub'])"""
+
+    def __init__(self, main, subs, share):
+        self.main, self.subfamilies, self.share = main, subs, share
+        self.pid, self.header, self.impl_script = main.pid, main.header, main.impl_script
+        self.targets = list(main.targets) + [t for f in subs.values() for t in f.targets if t not in main.targets]
+        self.rule = main.rule + ''.join('; PLUS (' + format(share, '.0%') + ' of the cases) ' + f.rule for f in subs.values())
+        self.explanation = main.explanation + ''.join('; ' + f.explanation for f in subs.values())
+        for attr in ('impl_timeout', 'known_without_tie'):
+            if hasattr(main, attr):
+                setattr(self, attr, getattr(main, attr))
+
+    def of(self, case):
+        return self.subfamilies[case['sub']] if case.get('sub') else self.main
+
+    def budget(self, tier):
+        return self.main.budget(tier)
+
+    def gen(self, rng, i, tier):
+        if rng.random() < self.share:
+            tag = rng.choice(sorted(self.subfamilies))
+            c = self.subfamilies[tag].gen(rng, i, tier)
+            c['sub'] = tag
+            return c
+        return self.main.gen(rng, i, tier)
+
+    def known(self, case, io, mo, so):
+        return self.of(case).known(case, io, mo, so)
+
+    def nontrivial(self, case, io):
+        return self.of(case).nontrivial(case, io)
+
+    def stats(self, case, io):
+        return self.of(case).stats(case, io)
+
+    def shrink(self, case):
+        for c in self.of(case).shrink(case):
+            if case.get('sub'):
+                c['sub'] = case['sub']
+            yield c
+
+
 def family(pid):
     if pid == 'C20':
         from p_c20 import C20
@@ -20,7 +63,8 @@ def family(pid):
         if pid == 'C19':
             return p_history.with_histories(p_query.C19, 0.25, p_history.falsy_shared_history)()
         if pid == 'C05':
-            return p_history.with_histories(p_query.C05, 0.3, p_history.join_history)()
+            from p_c20 import C05MG
+            return WithSub(p_history.with_histories(p_query.C05, 0.3, p_history.join_history)(), dict(index=C05MG()), 0.12)
         return p_history.with_histories(p_query.C11, 0.25, p_history.infer_history)()
     import p_rules
     if hasattr(p_rules, pid):
